@@ -204,7 +204,16 @@ unsigned __CPROVER_uninterpreted_ringcos (unsigned);
 unsigned __CPROVER_uninterpreted_ringsin (unsigned);
 static inline unsigned cxx2c_ring_cos (unsigned x) { return __CPROVER_uninterpreted_ringcos (x); }
 static inline unsigned cxx2c_ring_sin (unsigned x) { return __CPROVER_uninterpreted_ringsin (x); }
+int __CPROVER_uninterpreted_ringcosi (int);
+int __CPROVER_uninterpreted_ringsini (int);
+/* the int flavour (used where the code negates angles) builds in the only two facts needed, cos even and sin odd:
+ * cos(x) = C(x*x), sin(x) = x * S(x*x) with C, S uninterpreted (at x = 1 the two values are still arbitrary ring elements,
+ * so an identity proved for all x, C, S is an identity in free cos / sin values) */
+static inline int cxx2c_ring_cosi (int x) { return __CPROVER_uninterpreted_ringcosi ((int) ((unsigned) x * (unsigned) x)); }
+static inline int cxx2c_ring_sini (int x) { return (int) ((unsigned) x * (unsigned) __CPROVER_uninterpreted_ringsini ((int) ((unsigned) x * (unsigned) x))); }
 #else
+static inline double cxx2c_ring_cosi (int x) { return cos ((double) x); }
+static inline double cxx2c_ring_sini (int x) { return sin ((double) x); }
 static inline double cxx2c_ring_cos (unsigned x) { return cos ((double) x); }
 static inline double cxx2c_ring_sin (unsigned x) { return sin ((double) x); }
 #endif
